@@ -4,3 +4,4 @@ import Dalek.Gen.Norm.Scalar52
 import Dalek.Gen.Norm.Scalar29
 import Dalek.Gen.Norm.Clamp
 import Dalek.Gen.Norm.Avx2Field
+import Dalek.Gen.Norm.IfmaField
